@@ -125,7 +125,7 @@ PROFILES = {
         "max_samples": 8,
     },
     "c03": {"narrow_crit_p": 0.6, "fp_gt_p": 0.2, "tasks": {"detection": 4, "tracking": 3, "fp_validation": 3}},
-    "c16": {"max_samples": 24, "max_actors": 16, "enable_p": 0.1, "tasks": {"detection": 3, "tracking": 3, "fp_validation": 1}},
+    "c16": {"ego_tilt_p": 0.5, "max_samples": 24, "max_actors": 16, "enable_p": 0.1, "tasks": {"detection": 3, "tracking": 3, "fp_validation": 1}},
     "c19": {"analyze_p": 1.0, "force": ["analyze"], "fp_gt_p": 0.15, "max_samples": 10,
             "tasks": {"detection": 5, "tracking": 3, "fp_validation": 2}},
     "c01": {"force": ["ghost", "dup_detection"], "contested_p": 0.7, "tasks": {"detection": 5, "tracking": 2, "fp_validation": 3},
@@ -186,6 +186,7 @@ def _make_world(rng, prof, task):
     if rng.random() < 0.1:
         ego = [0.0, 0.0, 0.0, 0.0]
     speed = rng.choice([0.0, rng.uniform(0, 15)])
+    tilt = rng.random() < prof.get("ego_tilt_p", 0.0)
     yaw_rate = rng.choice([0.0, rng.uniform(-0.4, 0.4)])
     samples = []
     pose = list(ego)
@@ -197,6 +198,9 @@ def _make_world(rng, prof, task):
             pose[3] = rm.wrap(pose[3] + yaw_rate * dt)
             pose[2] += rng.uniform(-0.05, 0.05)
         samples.append({"t": t, "ego": [_r(pose[0]), _r(pose[1]), _r(pose[2]), _r(pose[3], 6)]})
+        if tilt:
+            # sloped / banked road: the ego pose is not a pure yaw (used by the loader check only)
+            samples[-1]["ego_rp"] = [_r(rng.uniform(-0.15, 0.15), 5), _r(rng.uniform(-0.1, 0.1), 5)]
 
     fp_world = task == "fp_validation"
     fp_gt = (not fp_world) and rng.random() < prof["fp_gt_p"]
@@ -303,10 +307,14 @@ def _make_storage(rng, prof):
 # ------------------------------------------------------------------------------------------------------
 
 
-def _thr_spec(rng, n_labels, lo, hi, multi_p):
+def _thr_spec(rng, n_labels, lo, hi, multi_p, edge=None):
     """A threshold specification in one of the accepted spellings, avoiding the flat-list/per-label ambiguity."""
     n_thr = 1 if rng.random() > multi_p else rng.randint(2, 3)
     vals = sorted(_r(rng.uniform(lo, hi), 3) for _ in range(n_thr))
+    if edge is not None and rng.random() < 0.15:
+        vals[rng.randrange(len(vals))] = edge  # a legal extreme threshold (IoU 0.0: any overlap counts)
+        vals = sorted(set(vals))
+        n_thr = len(vals)
     if rng.random() < 0.3:
         rng.shuffle(vals)
     spelling = rng.choice(["flat", "nested", "nested_per_label"])
@@ -427,9 +435,9 @@ def _make_config(rng, prof, world):
         if rng.random() < 0.7:
             thr["plane"] = _thr_spec(rng, n, 0.3, 4.0, mp)
         if rng.random() < 0.6:
-            thr["iou2d"] = _thr_spec(rng, n, 0.05, 0.8, mp)
+            thr["iou2d"] = _thr_spec(rng, n, 0.05, 0.8, mp, edge=0.0)
         if rng.random() < 0.5:
-            thr["iou3d"] = _thr_spec(rng, n, 0.05, 0.8, mp)
+            thr["iou3d"] = _thr_spec(rng, n, 0.05, 0.8, mp, edge=0.0)
     cfg["thresholds"] = thr
     return cfg
 
